@@ -342,6 +342,29 @@ def taint_reaches_result(b, sources):
                     tainted.add(d)
                     src_of[d] = src_of[hit[0]]
                     changed = True
+        # a tainted value that steers a branch: everything assigned under the branch is tainted; a branch that decides an exit
+        # (no common join before the return) makes the result depend on it
+        for x, t in b.terms("switch"):
+            pl = core.op_place(t["discr"])
+            if pl is None or pl["local"] not in tainted or ("seen-branch", x) in tainted:
+                continue
+            tainted.add(("seen-branch", x))
+            changed = True
+            origin = src_of[pl["local"]]
+            reg = _branch_region(b, x)
+            if reg is None:
+                tainted.add(("branch", x))
+                src_of.setdefault(("branch", x), origin)
+            else:
+                for y in reg:
+                    for s2 in b.blocks[y]["stmts"]:
+                        if s2["k"] == "assign" and s2["place"]["local"] not in tainted:
+                            tainted.add(s2["place"]["local"])
+                            src_of.setdefault(s2["place"]["local"], origin)
+                    t2 = b.blocks[y].get("term")
+                    if t2 and t2["k"] == "call" and not _absorbed(t2, None) and t2["dest"]["local"] not in tainted:
+                        tainted.add(t2["dest"]["local"])
+                        src_of.setdefault(t2["dest"]["local"], origin)
         for x, t in b.terms("call"):
             args_l = [core.op_place(a)["local"] for a in t["args"] if core.op_place(a)]
             hit = [l for l in args_l if l in tainted]
@@ -381,7 +404,7 @@ def taint_reaches_result(b, sources):
                 l = [l for l in _rv_locals(s["rv"]) if l in tainted][0]
                 ln, tok = src_of.get(l, (b.line, "?"))
                 return (ln, tok, "store through parameter")
-    br = [t for t in tainted if isinstance(t, tuple)]
+    br = [t for t in tainted if isinstance(t, tuple) and t[0] == "branch"]
     if br:
         ln, tok = src_of[br[0]]
         return (ln, tok, "configuration-dependent branch")
@@ -390,6 +413,8 @@ def taint_reaches_result(b, sources):
 
 def _absorbed(t, ai):
     nm = callee_name(t)
+    if ai is None and nm in ("new", "with_capacity") and "Vec" in (callee(t) or ""):
+        return True  # an empty vector is the same value whichever branch allocates it
     if nm in ABSORBERS:
         if ai is None:
             return False
